@@ -44,6 +44,14 @@ class BoomType(TypeError):
         self.tag = tag
 
 
+def _trim_defaults(args, defaults):
+    """Trailing arguments that equal the documented defaults are left out, so the defaults themselves are part of what is exercised."""
+    args = list(args)
+    while args and args[-1] == defaults[len(args) - 1] and type(args[-1]) is type(defaults[len(args) - 1]):
+        args.pop()
+    return args
+
+
 class BoomFalsy(Exception):
     """An error whose truth value is False (an exception class that is also a - here empty - collection of details: __len__ == 0)."""
     def __init__(self, tag):
@@ -422,9 +430,9 @@ class C08:
             if cfg["items_as"] == "iter":
                 items = iter(items)
             if cfg["coba_mp"]:
-                mp = CobaMultiprocessor(f, cfg["n_procs"], cfg["mtpc"])
+                mp = CobaMultiprocessor(f, *_trim_defaults([cfg["n_procs"], cfg["mtpc"]], [1, 0]))
             else:
-                mp = Multiprocessor(f, cfg["n_procs"], cfg["mtpc"], cfg["read_wait"])
+                mp = Multiprocessor(f, *_trim_defaults([cfg["n_procs"], cfg["mtpc"], cfg["read_wait"]], [1, 0, False]))
             pr = cfg.get("prior")
             if pr:
                 f.prior_fail = set(pr["fail"])
